@@ -995,8 +995,12 @@ Definition query_biv (b : binst) (k : bkind) (n : nat) (g : grng) : binst * grng
   | BSample =>
       if negb (b_init b) then (b, g, ObsErr AttributeErr)     (* self.random_state missing *)
       else
+        (* since the F23 fix: self.check_fit() first (inside @random_state, before any draw) *)
+        match check_fit_biv b with
+        | Some e => (b, g, ObsErr e)
+        | None =>
         match b_tau b with
-        | JNone => (b, g, ObsErr TypeErr)                      (* None > 1 *)
+        | JNone => (b, g, ObsErr TypeErr)                      (* None > 1: theta set by hand, tau left None *)
         | tau =>
             if jgt tau (JNum 1) || jgt (JNum (-1)) tau
             then (b, g, ObsErr ValueErr)
@@ -1016,6 +1020,7 @@ Definition query_biv (b : binst) (k : bkind) (n : nat) (g : grng) : binst * grng
                   (setb_rs (Some (seed, d :: ds)) b, g,
                    match res with ObsErr e => ObsErr e | w => ObsDraw w n (RsOwn (seed, ds)) end)
               end
+        end
         end
   | _ =>
       match b_cls b with
